@@ -402,6 +402,77 @@ func runC10(p *Prog, r *Report) {
 
 	rbMirrorAndReset(p, r, c02Pools(p, r), "C10.R4")
 
+	// ---- R2/R3: the adjustment visits every record: loops over the server list in the routines reached from
+	// adjustWeights / reset are left only when exhausted (a `break` at a capped record leaves later good records
+	// unraised: the outlier's share stops shrinking although other servers are below the cap) ----
+	{
+		nLoops := 0
+		for _, f := range reachableStatic(p, rb.adjust) {
+			if !p.InModule(f) || f.Blocks == nil || recvNamed(f) != rb.typ {
+				continue
+			}
+			isPool := func(v ssa.Value) bool { return isFieldLoad(v, rb.typ, rb.pool) }
+			n, exits := earlyExitLoops(f, isPool)
+			nLoops += n
+			if n == 0 {
+				continue
+			}
+			// only loops that adjust: the function stores into a record or pushes a weight to the wrapped balancer
+			// (predicates such as "all meters ready" and look-ups legitimately stop early)
+			adjusts := false
+			for _, bb := range f.Blocks {
+				for _, in := range bb.Instrs {
+					if st, ok := in.(*ssa.Store); ok {
+						if n, _, _, ok := fieldOf(st.Addr); ok && n == rb.rec {
+							adjusts = true
+						}
+					}
+					if _, ok := IsInvoke(in, "UpsertServer"); ok {
+						adjusts = true
+					}
+				}
+			}
+			if !adjusts {
+				continue
+			}
+			pos := p.FuncPos(f)
+			if len(exits) > 0 {
+				pos = p.InstrPos(exits[0])
+			}
+			r.Check(len(exits) == 0, "C10.R2", tn+": "+FName(f)+" visits every record", pos, fmt.Sprintf("%d loop(s) over the server list, left only when exhausted", n),
+				"a loop over the server list can be left before every record was visited: records after the exit keep their old weight (a capped good server hides later good servers, the outlier keeps its share)")
+		}
+		r.Floor("C10.R2", nLoops, 4, "loops over the rebalancer's server list")
+	}
+	// ---- R3: what the rebalancer believes is what the wrapped balancer has: in every routine reached from
+	// adjustWeights, a change of a current weight (a store, or a call that may store one, e.g. the normalisation)
+	// is followed by the application of the weights before the routine returns ----
+	{
+		mayStore := NewEvents(p, func(in ssa.Instruction) bool {
+			st, ok := in.(*ssa.Store)
+			return ok && isFieldAddr(st.Addr, rb.rec, rb.cur)
+		})
+		for _, f := range reachableStatic(p, rb.adjust) {
+			if !p.InModule(f) || f.Blocks == nil || recvNamed(f) != rb.typ || f == rb.adjust || !rb.apply.May(f) {
+				continue
+			}
+			set := func(in ssa.Instruction) bool {
+				if rb.apply.MayInstr(in) {
+					return false
+				}
+				return mayStore.MayInstr(in)
+			}
+			dirty, okA := DirtyReturns(f, set, rb.apply.MayInstr)
+			r.Paths++
+			r.Check(okA && len(dirty) == 0, "C10.R3", tn+": "+FName(f)+" applies after the last weight change", p.FuncPos(f), "no return is reachable with a changed weight not yet applied",
+				"a return is reachable after a current weight was changed (or normalised) without applying the weights afterwards"+func() string {
+					if len(dirty) > 0 {
+						return posOf(p, dirty[0])
+					}
+					return ""
+				}()+": the wrapped balancer keeps other weights than the rebalancer records, the effective shares drift")
+		}
+	}
 	// ---- R5 convergence target ----
 	nDec := 0
 	for _, cs := range stores {
